@@ -1,13 +1,43 @@
 (* Properties/C04.v — XML marshal/unmarshal round-trips every object and container.
-   Only statements; proofs are in Verif.C04.*. *)
+   Only statements; proofs are in Verif.Codec.* and Verif.C04.*.
+
+   FULL STATEMENT (target; see PARTIAL below for what is kernel-checked today):
+
+     Theorem xml_roundtrip_T : forall v,
+       wfb gen_schema T v = true ->
+       exists e, encode1 gen_schema T v = Ok e /\ decode gen_schema T e = Ok v
+     for T in Node, Way, Relation, Changeset, Note, User, Bounds, OSM, Change, Diff (and, with the
+     field name of their parent, WayNode, Member, Update, Tag, ChangesetComment, NoteComment, Date),
+     and  marshal_decodable_by_scanner :
+       fst (scan_el gen_schema e) has, per object kind, the objects collect gen_schema T v.
+     Its generic form is Codec.ProofsRT.RT (induction on the depth of the value, all fuels).
+
+   PARTIAL: the induction RT itself is not finished.  What is proved, for ALL values /
+   documents / fuels, are its two loop lemmas and their combination:
+     - struct_decoder_is_fieldwise: the attribute loop nest and the child-routing loop of the
+       struct decoder compute, per field, the fold of that field's own attributes / children;
+     - attrs_written_are_read_back: the attributes marshal_attrs writes for a struct are read back
+       by the decoder's attribute phase into exactly the attribute fields of the value;
+     - kids_written_are_read_back: the concatenated per-field element lists are routed back to
+       their fields (element names distinct, no a>b path);
+     - attr_field_roundtrip: one attribute field of scalar / time / pointer-to-scalar type.
+   Missing: the assembly over the type structure (pointers, slices, nested structs, the
+   transcribed methods of OSM / Change / Action / ChangesetDiscussion / Date / Bounds, a>b paths
+   of Note and User).  The round trip of every generated value is evaluated inside Coq on each
+   run by Check.v (judgement 1: model, judgement 2: implementation). *)
 From Coq Require Import List String Bool ZArith.
-From Verif Require Import Codec.Schema Codec.Value Codec.Xml Codec.Wf Codec.Scan C04.Refuted.
+From Verif Require Import Codec.Schema Codec.Value Codec.Xml Codec.Wf Codec.Scan Codec.SpecNames
+     Codec.ProofsAttr Codec.ProofsKids Codec.ProofsRT C04.Refuted C04.SchemaOk.
 From VerifGen Require Import GenSchema.
 Import ListNotations.
 Open Scope string_scope.
 
-(* The defect this property exposed (fixed in /repo, commit e8ed5c6): with Bounds lacking a
-   MarshalXML method the round trip of OSM and Change containers with top-level bounds is false. *)
+(* --- the schema regenerated from /repo uses the OSM XML vocabulary --- *)
+Theorem schema_ok : schema_okb gen_schema = true /\ literals_okb = true.
+Proof. split; [exact gen_schema_ok | exact gen_literals_ok]. Qed.
+Print Assumptions schema_ok.
+
+(* --- the defect this property exposed (fixed in /repo, commit e8ed5c6) --- *)
 Theorem roundtrip_osm_refuted :
   exists v e, wfb prefix_schema "OSM" v = true /\ encode1 prefix_schema "OSM" v = Ok e /\
               decode prefix_schema "OSM" e <> Ok v /\ map xname (xkids e) = ["Bounds"].
@@ -19,3 +49,77 @@ Theorem roundtrip_change_refuted :
               decode prefix_schema "Change" e <> Ok v.
 Proof. exact roundtrip_change_refuted_prefix. Qed.
 Print Assumptions roundtrip_change_refuted.
+
+Theorem scanner_and_decoder_disagreed_before_fix :
+  encode1 prefix_schema "OSM" w_osm = Ok w_osm_xml /\
+  fst (scan_el prefix_schema w_osm_xml) = [("Bounds", w_bounds)] /\
+  decode prefix_schema "OSM" w_osm_xml = Ok (zero prefix_schema FUEL (TNamed "OSM")).
+Proof. exact scanner_decoder_disagreed_prefix. Qed.
+Print Assumptions scanner_and_decoder_disagreed_before_fix.
+
+(* --- round trip, partial (see header) --- *)
+Theorem struct_decoder_is_fieldwise_partial : forall sch unm d bs e st1 st2,
+  all_supported (struct_fields d) = true ->
+  (String.eqb (xmlname_tag d) "" || String.eqb (xmlname_tag d) (xname e)) = true ->
+  no_parents (struct_fields d) = true ->
+  nodup_strb (elem_names sch (struct_fields d)) = true ->
+  Forall3 (fun f b r => absorb_attrs sch f b (xattrs e) = Ok r) (struct_fields d) bs st1 ->
+  Forall3 (fun f b r => absorb_kids sch unm f b (xkids e) = Ok r) (struct_fields d) st1 st2 ->
+  unmarshal_struct sch unm d (VStruct bs) e = Ok (VStruct st2).
+Proof. exact unmarshal_struct_fieldwise. Qed.
+Print Assumptions struct_decoder_is_fieldwise_partial.
+
+Theorem attrs_written_are_read_back_partial : forall sch fs vs bases al,
+  marshal_attrs sch fs vs = Ok al ->
+  nodup_strb (attr_names sch fs) = true ->
+  Forall3 (attr_field_rt sch) fs vs bases ->
+  Forall3 (fun f b r => absorb_attrs sch f b al = Ok r) fs bases
+          (map (fun fvb => if is_attr (fst (fst fvb)) then snd (fst fvb) else snd fvb)
+               (combine (combine fs vs) bases)).
+Proof. exact attrs_roundtrip. Qed.
+Print Assumptions attrs_written_are_read_back_partial.
+
+Theorem kids_written_are_read_back_partial : forall sch unm fs vs bases ess,
+  nodup_strb (elem_names sch fs) = true ->
+  Forall3 (fun f (vb : value * value) es =>
+             own_names sch f es /\ (is_elem f = true -> absorb_kids sch unm f (snd vb) es = Ok (fst vb)))
+          fs (combine vs bases) ess ->
+  List.length vs = List.length bases ->
+  Forall3 (fun f b r => absorb_kids sch unm f b (List.concat ess) = Ok r) fs bases
+          (map (fun fvb => if is_elem (fst (fst fvb)) then snd (fst fvb) else snd fvb)
+               (combine (combine fs vs) bases)).
+Proof. exact kids_roundtrip. Qed.
+Print Assumptions kids_written_are_read_back_partial.
+
+Theorem attr_field_roundtrip_partial : forall sch n f v b,
+  attr_ty_ok sch (f_type f) = true ->
+  wf sch (S (S n)) (f_type f) v = true ->
+  zero_like sch (S (S n)) (f_type f) b = true ->
+  attr_field_rt sch f v b.
+Proof. exact attr_rt_of_wf. Qed.
+Print Assumptions attr_field_roundtrip_partial.
+
+(* --- non-vacuity --- *)
+Definition ex_node : value :=
+  VStruct [VInt 5; VFloat 192; VFloat (-288); VStr [97]; VInt 7; VBool true; VInt 2; VInt 9;
+           VTime 1000000000500000000; VList [VStruct [VStr [107]; VStr [60; 38]]]; VPtr (Some (VTime 5))].
+
+Example ex_node_wf : wfb gen_schema "Node" ex_node = true.
+Proof. vm_compute. reflexivity. Qed.
+Example ex_node_roundtrip :
+  (do e <- encode1 gen_schema "Node" ex_node; decode gen_schema "Node" e) = Ok ex_node.
+Proof. vm_compute. reflexivity. Qed.
+Example ex_container_roundtrips_after_fix :
+  wfb gen_schema "Change" w_change = true /\
+  (do e <- encode1 gen_schema "Change" w_change; decode gen_schema "Change" e) = Ok w_change.
+Proof. split; vm_compute; reflexivity. Qed.
+(* the Node struct meets the hypotheses of the partial theorems *)
+Example ex_node_struct_hyps :
+  match lookup_type gen_schema "Node" with
+  | Some d => all_supported (struct_fields d) && no_parents (struct_fields d)
+              && nodup_strb (elem_names gen_schema (struct_fields d))
+              && nodup_strb (attr_names gen_schema (struct_fields d))
+              && forallb (fun f => negb (is_attr f) || attr_ty_ok gen_schema (f_type f)) (struct_fields d)
+  | None => false
+  end = true.
+Proof. vm_compute. reflexivity. Qed.
